@@ -252,11 +252,26 @@ def marker_collides(case):
     return False
 
 
+def marker_word_prefix(case):
+    """The derived marker starts with a word character but is not a whole word ('a#', '_+<'): the line rule
+    `(\\w+|marker)` tries `\\w+` first, so the marker is never recognised and comment lines become tags."""
+    d = case["d"]
+    if not d[4]:
+        return False
+    m = dp.marker_of(d)
+    wordch = lambda c: c == "_" or c.isalnum()
+    if not (wordch(m[0]) and not all(wordch(c) for c in m)):
+        return False
+    return any(p[0] == "tag" and p[3] == "liquid" and dp.MARK in p[5] for ps in [case["main"]] + list(case["parts"].values()) for p in ps)
+
+
 def render_oracle(case, obs):
     a, b = obs["orig"], obs["rewritten"]
     same = (a.get("ok") == b.get("ok")) if ("ok" in a and "ok" in b) else (a.get("err") == b.get("err") and "ok" not in a and "ok" not in b)
     if same:
         return None
+    if marker_word_prefix(case):
+        return ("render|liquid-marker|word-prefix", f"comment_start_string {case['d'][4]!r}: the liquid-tag marker {dp.marker_of(case['d'])!r} starts with a word character, `\\w+` wins over it and inline comments are parsed as tags")
     if marker_collides(case):
         return ("render|liquid-marker|brace-stripped", f"comment_start_string {case['d'][4]!r} gives the liquid-tag marker {dp.marker_of(case['d'])!r}, which starts an ordinary line")
     if any(dp.word_end_adjacent(case["d"], ps) for ps in [case["main"]] + list(case["parts"].values())):
@@ -271,7 +286,7 @@ EDGE_DELIMS = [
     ["{%", "%}", "${", "}", "", ""], ["<%", "%>", "<$", "$>", "<!--", "-->"], ["{{", "}}", "{%", "%}", "", ""],
     ["@|", "|@", "@:", ":@", "", ""], ["a", "b", "xx", "yy", "", ""], ["{", "}", "{.", ".}", "", ""], ["%", "&", "{{", "}}", "", ""],
     ["{%", "%}", "{{", "}}", "{#", "#}"], ["{%", "%}", "{{", "}}", "{//", "//}"], ["{%", "%}", "{{", "}}", "<#", "#>"], ["-%", "%-", "-{", "}-", "", ""],
-    ["{%", "%}", "{{", "}}", "{if", "fi}"], ["{%", "%}", "{{", "}}", "{for", "rof}"],
+    ["{%", "%}", "{{", "}}", "{if", "fi}"], ["{%", "%}", "{{", "}}", "{for", "rof}"], ["{%", "%}", "{{", "}}", "a#", "#a"], ["{%", "%}", "{{", "}}", "_+{<", "~"],
     ["{%", "x%", "{{", "}}", "", ""], ["{%", "_%}", "{{", "}}", "", ""], ["{%", "#%}", "{{", "}}", "", ""],
 ]
 EDGE_TEMPLATES = [
